@@ -299,6 +299,10 @@ def evaluate__substring(self: XPathFunction, context: ta.ContextType = None) -> 
     item: str = self.get_argument(context, default='', cls=str)
     try:
         start = self.get_argument(context, index=1, required=True)
+        if isinstance(start, XPathNode):
+            # a node argument is converted with number() (XPath 1.0) or atomized
+            start = self.number_value(start) if self.parser.version == '1.0' \
+                else self.data_value(start)
         if isinstance(start, UntypedAtomic):
             start = self.cast_to_double(start.value)
         if math.isnan(start) or start == math.inf:
@@ -319,6 +323,9 @@ def evaluate__substring(self: XPathFunction, context: ta.ContextType = None) -> 
     else:
         try:
             length = self.get_argument(context, index=2, required=True)
+            if isinstance(length, XPathNode):
+                length = self.number_value(length) if self.parser.version == '1.0' \
+                    else self.data_value(length)
             if isinstance(length, UntypedAtomic):
                 length = self.cast_to_double(length.value)
             if math.isnan(length) or length <= 0:
